@@ -427,19 +427,7 @@ func buildGenome(r *rand.Rand, sp genomeSpec, id int) *genetics.Genome {
 func startGenome(r *rand.Rand, o *neat.Options) (*genetics.Genome, string) {
 	g, src := startGenomePlain(r, o)
 	if r.Intn(6) == 0 {
-		// a start genome that carries weights of a trained network (tens to hundreds) instead of the zeros / small values of a
-		// blank one: the copies a population is spawned from it then differ by much more than the mutation power
-		f := pick(r, 5.0, 20.0, 100.0)
-		for _, gn := range g.Genes {
-			mirrored := gn.MutationNum == gn.Link.ConnectionWeight
-			if gn.Link.ConnectionWeight == 0 {
-				gn.Link.ConnectionWeight = r.NormFloat64()
-			}
-			gn.Link.ConnectionWeight = math.Round(gn.Link.ConnectionWeight*f*1000)/1000 + 0
-			if mirrored {
-				gn.MutationNum = gn.Link.ConnectionWeight
-			}
-		}
+		heavyWeights(r, g)
 		src += "+heavy-weights"
 	}
 	if r.Intn(10) == 0 && len(g.ControlGenes) == 0 {
@@ -452,6 +440,24 @@ func startGenome(r *rand.Rand, o *neat.Options) (*genetics.Genome, string) {
 		src += "+huge-innovation-numbers"
 	}
 	return g, src
+}
+
+// heavyWeights gives the genome the weights of a trained network (tens to hundreds) instead of the zeros / small values of a
+// blank one: the copies a population is spawned from it then differ by much more than the mutation power
+func heavyWeights(r *rand.Rand, g *genetics.Genome) {
+	{
+		f := pick(r, 5.0, 20.0, 100.0)
+		for _, gn := range g.Genes {
+			mirrored := gn.MutationNum == gn.Link.ConnectionWeight
+			if gn.Link.ConnectionWeight == 0 {
+				gn.Link.ConnectionWeight = r.NormFloat64()
+			}
+			gn.Link.ConnectionWeight = math.Round(gn.Link.ConnectionWeight*f*1000)/1000 + 0
+			if mirrored {
+				gn.MutationNum = gn.Link.ConnectionWeight
+			}
+		}
+	}
 }
 
 func startGenomePlain(r *rand.Rand, o *neat.Options) (*genetics.Genome, string) {
